@@ -297,6 +297,11 @@ def compare_model(
       for tensor_name, detail in ref_tensor_name_to_details.items():
         if detail['dtype'] == np.object_:
           continue
+        # A tensor without elements (e.g. the empty shape operand of a reshape
+        # to a scalar) has nothing to compare; the interpreter refuses to
+        # return it.
+        if 0 in detail['shape']:
+          continue
         if tensor_name in targ_tensor_name_to_details:
           if tensor_name not in comparison_results:
             comparison_results[tensor_name] = []
